@@ -11,7 +11,7 @@ RULE = ("pairs (reference, compared) of unrooted trees on the same 4..11 taxa (r
         "splits, length-perturbed copies; every pair is run in both orders (swap), with and without tip branches, with and "
         "without the identical-only shortcut, through Compare, CompareWeighted and CommonEdges; rejection cases rename one tip, "
         "drop a tip or add a tip in one of the trees; some rooted pairs (outside the quantifier) are run for the correspondence "
-        "only; all 26 x 26 ordered pairs of shapes on 4 and 5 taxa are enumerated in the thorough tier; non-trivial = the two trees differ in at "
+        "only; all ordered pairs of the 7 unrooted shapes on 4 taxa and of the 66 on 5 taxa are enumerated in the thorough tier (trees up to 24 taxa there); non-trivial = the two trees differ in at "
         "least one non-trivial split (or must be rejected); distinct = distinct case text")
 TRUSTED = ["trees built through NewNode/NewEdge + verif hooks (exact neighbour order); records read from the stats channel",
            "the compared tree is fed through a closed buffered channel of tree.Trees as utils.ReadMultiTrees does (no Newick parsing)",
@@ -179,7 +179,7 @@ def unrooted(g, rng, n, maxdeg=5):
 
 def gen(rng, tier):
     g = Gen(rng)
-    nbase = {"quick": 26, "thorough": 700, "search": 60}[tier]
+    nbase = {"quick": 26, "thorough": 400, "search": 60}[tier]
     hi = 11 if tier != "thorough" else 24
     out = []
     for _ in range(nbase):
